@@ -611,7 +611,12 @@ func checkC19(r *mon.Run) {
 
 	// The rejecting decodes allocate an error with a stack trace each; with 16
 	// workers the default GC pacing makes the collector the bottleneck.
-	defer debug.SetGCPercent(debug.SetGCPercent(1600))
+	if os.Getenv("WIRE_GC_EXPERIMENT") == "" {
+		defer debug.SetGCPercent(debug.SetGCPercent(1600))
+	}
+	if os.Getenv("WIRE_C19_ONLY_A") != "" {
+		defer os.Exit(0)
+	}
 	// ---- phase A: the complete 2^26 space, RSV = 0 ----
 	t0 := time.Now() // reporting only, never part of a verdict
 	runTasks(r, 64*64, func(t int, a *acc) {
